@@ -882,6 +882,12 @@ func init() {
 					if tracked {
 						_ = b.ClaimUpload(w.Ctx, id)
 					}
+					// revisions are ordered by upload date, which has millisecond resolution: two uploads within one millisecond
+					// are the same revision for lungo and for MongoDB alike. The dates are set by hand, one second apart
+					// (change log L16)
+					if _, err := b.GetFilesCollection(w.Ctx).UpdateOne(w.Ctx, bD("_id", id), bD("$set", bD("uploadDate", primitive.DateTime(1000*int64(k+1))))); err != nil {
+						r.Broken("setting the upload date of revision %d: %v", k, err)
+					}
 				}
 				for rev, want := range map[int32][]byte{0: contents[0], 1: contents[1], 2: contents[2], -1: contents[2], -2: contents[1], -3: contents[0]} {
 					var buf bytes.Buffer
